@@ -912,6 +912,14 @@ func (s *session) startReadAndHandle() {
 			// because bindReply holds the call's mutex until handleReply has run
 			if ctx.callCmd != nil {
 				ctx.handleReply()
+			} else if ctx.input.Mtype() != TypePush {
+				// only a PUSH may be skipped: a CALL is refused with an error status
+				// instead of being dropped without any reply (its handler is not run),
+				// and an unsupported message type still disconnects
+				if ctx.stat.OK() {
+					ctx.stat = statInternalServerError.Copy("no goroutine available to handle the message")
+				}
+				ctx.handle()
 			}
 			s.peer.putContext(ctx, true)
 		}
